@@ -270,6 +270,23 @@ DirContract(d, v, out) ==
     [] d.name = "truncate" ->
          IF ~AllKnown(s, 1) THEN "u" ELSE TF(TruncateOK(s, TruncN(d), TruncEll(d), out))
 
+\* why a contract is violated (the structural feature of a finding)
+ContractReason(d, v, out) ==
+  LET s == IF d.name = "json" THEN "" ELSE ToText(v)
+      tag == TagOf(d.name) IN
+  CASE d.name \in Transparent -> "changed"
+    [] d.name \in HtmlProducing ->
+         IF tag # "" /\ ~SegmentsSafe(out, tag) /\ NoRawSpecial(CatSeq(SplitOn(out, tag), 1)) THEN "tag-inside-reference"
+         ELSE IF (tag = "" /\ ~NoRawSpecial(out)) \/ (tag # "" /\ ~SegmentsSafe(out, tag)) THEN "raw-special"
+         ELSE "decodes-wrong"
+    [] d.name = "escapeUri" -> IF ~UriAlphabet(out) THEN "alphabet" ELSE "decodes-wrong"
+    [] d.name = "escapeJsString" -> IF ~JsSafe(out) THEN "unsafe" ELSE "decodes-wrong"
+    [] d.name = "json" -> IF JsonDecode(out).ok = "malformed" THEN "malformed" ELSE "decodes-wrong"
+    [] d.name = "truncate" ->
+         IF ByteLen(s) <= TruncN(d) THEN "changed-though-fits"
+         ELSE IF CharLen(out) > TruncN(d) THEN "too-long"
+         ELSE "not-a-prefix"
+
 \* length bounds of the reference functions (design property, checked in M1)
 LenBound(d, s, out) ==
   CASE d.name \in HtmlProducing -> Len(out) <= 6 * Len(s) + (IF d.name = "insertWordBreaks" THEN 5 * Len(s) ELSE 0)
